@@ -26,11 +26,13 @@ def case(c):
 
 def emb_case(c):
     """rows: a batch of id rows [n][L]; g: [n][L][D] integers.  Returns per row the squared ghost norm and the squared norm of the grad sample"""
-    emb = nn.Embedding(c['V'], c['D'], padding_idx=c['pad']).double()
+    emb = nn.Embedding(c['V'], c['D'], padding_idx=c['pad'], scale_grad_by_freq=c.get('freq', False)).double()
     ids = torch.tensor(c['ids'], dtype=torch.long)
     g = torch.tensor(c['g'], dtype=torch.float64)
     ns = compute_embedding_norm_sample(emb, [ids], g)[emb.weight]
     gs = compute_embedding_grad_sample(emb, [ids], g)[emb.weight]
+    if c.get('freq'):      # divisions by the usage counts: compared as floats
+        return {'n2f': [float(x) ** 2 for x in ns], 't2f': [float((x ** 2).sum()) for x in gs]}
     return {'n2': [int(round(float(x) ** 2)) for x in ns], 't2': [int(round(float((x ** 2).sum()))) for x in gs],
             'resid': max(abs(float(x) ** 2 - round(float(x) ** 2)) for x in ns)}
 
